@@ -17,6 +17,26 @@ mod util;
 use std::path::PathBuf;
 use util::*;
 
+/// A logger that formats every record of the code under test and throws the text away: with logging switched on (as an
+/// application that debugs its HTTP traffic has it) the Debug / Display code behind the log macros runs on every input.
+struct Sink;
+impl log::Log for Sink {
+    fn enabled(&self, _: &log::Metadata) -> bool {
+        true
+    }
+    fn log(&self, r: &log::Record) {
+        // (really formatted: a writer that discards its input may skip the formatting altogether)
+        let text = format!("{}", r.args());
+        std::hint::black_box(&text);
+        if LOGDBG.load(std::sync::atomic::Ordering::Relaxed) {
+            eprintln!("LOG {}", text);
+        }
+    }
+    fn flush(&self) {}
+}
+static SINK: Sink = Sink;
+static LOGDBG: std::sync::atomic::AtomicBool = std::sync::atomic::AtomicBool::new(false);
+
 fn main() {
     let args: Vec<String> = std::env::args().collect();
     if args.len() < 2 {
@@ -40,6 +60,11 @@ fn main() {
     }
     if std::env::var("HV_LOUD").is_err() {
         silence_panics();
+    }
+    if std::env::var("HV_NOLOG").is_err() {
+        LOGDBG.store(std::env::var_os("HV_LOGDBG").is_some(), std::sync::atomic::Ordering::Relaxed);
+        let _ = log::set_logger(&SINK);
+        log::set_max_level(log::LevelFilter::Trace);
     }
     std::fs::create_dir_all(&o.out).ok();
     start_watchdog(o.out.clone(), 40);
